@@ -46,7 +46,7 @@ def S(on, sel):
 
 
 def A(name, typ, val, var=""):
-    return {"name": name, "type": typ, "var": var, "val": json.dumps(val, separators=(",", ":"))}
+    return {"name": name, "type": typ, "var": var, "val": json.dumps(val, separators=(",", ":")), "str": val if isinstance(val, str) else ""}
 
 
 def OP(sel, kind="query", fed=None):
@@ -283,6 +283,11 @@ def note_probes():
         ("unnormalized-fragment-on-object-type", "raw",
          OP([F("users", [F("id"), F("name")])]),
          OP([F("users", [I("User", [F("id")]), F("name")])])),
+        ("unnormalized-same-type-fragments-in-resolver-selection", "raw",
+         OP([F("categories", [F("id"), F("mascot", [I("Cat", [F("name"), F("meowVolume")]), I("Dog", [F("name")])],
+                                        args=[A("includeVolume", "Boolean!", True)])])]),
+         OP([F("categories", [F("id"), F("mascot", [I("Cat", [F("name")]), I("Cat", [F("meowVolume")]), I("Dog", [F("name")])],
+                                        args=[A("includeVolume", "Boolean!", True)])])])),
         ("unnormalized-named-fragment", "raw",
          OP([F("users", [F("id"), F("name")])]),
          OP([F("users", [S("User", [F("id")]), F("name")])])),
@@ -602,7 +607,7 @@ class Batch:
             bc = self.cases.get(rec["against"]) if rec["against"] else None
             bo = self.obs.get(rec["against"]) if rec["against"] else None
             seen = set()
-            for rel in ("shape", "self", "agree"):
+            for rel in ("shape", "self", "agree", "data"):
                 for e in rec[rel]:
                     if c.get("probe"):
                         key = "probe:%s:%s:%s" % (c["probe"], rel, e["why"])
@@ -624,7 +629,8 @@ class Batch:
                         continue
                     what = "%s: %s at %s.%s (root field %s) — lane %s, steps %s; operation: %s; answer: %s" % (
                         {"shape": "answer does not have the shape of the selection", "self": "one position selected twice carries two values",
-                         "agree": "a position common to base and reformulation changed its value"}[rel],
+                         "agree": "a position common to base and reformulation changed its value",
+                         "data": "a position does not carry the value the service data prescribes (GQLShapeData)"}[rel],
                         e["why"], e["c"][1], e["c"][2], e["c"][0], c["lane"], json.dumps([st["a"] for st in c.get("steps") or []]),
                         o["text"][:300], (o["raw"] or "")[:300])
                     if rel == "agree" and bo is not None:
@@ -727,6 +733,10 @@ def run(ctx):
     g4 = ctx.tlc_must_pass(CORE, "Gen_C20", "Gen_C20_reuse.cfg", timeout=1500, deadlock=False, workers=8, tag="gen-bfs-revalue")
     for g, v in group_records(g4.printed).items():
         reuse_groups.setdefault(g, v)["vars"].update(v["vars"])
+    # exhaustive set over the roots of the data universe (GQLShapeData): every selection of <= 3 fields, one reformulation each
+    g5 = ctx.tlc_must_pass(CORE, "Gen_C20", "Gen_C20_data.cfg", timeout=1500, deadlock=False, workers=8, tag="gen-bfs-data-universe-roots")
+    data_groups = group_records(g5.printed)
+    data_sel = choose(data_groups, rng, 350 if quick else 10 ** 9, 1 if quick else 2)
     res_sel, n_int, n_oth = choose_res(schema, res_groups, rng, 400 if quick else 10 ** 9, 100 if quick else 3000)
     rcases = reuse_cases(schema, reuse_groups, rng, ctx.seed, 120 if quick else 1500, 3)
     ctx.log("targeted: duplicate-before-resolver %d pairs (+%d other) of the users/categories orbit set, chosen %d; reuse lane %d groups, %d loads" % (
@@ -740,12 +750,13 @@ def run(ctx):
     ctx.log("generated: bfs %d bases / %d pairs (chosen %d / %d); simulate %d bases / %d pairs (chosen %d / %d)" % (
         len(bfs_groups), sum(len(v["vars"]) for v in bfs_groups.values()), len(bfs_sel), sum(len(v["vars"]) for v in bfs_sel.values()),
         len(sim_groups), sum(len(v["vars"]) for v in sim_groups.values()), len(sim_sel), sum(len(v["vars"]) for v in sim_sel.values())))
-    g1.printed = g2.printed = g3.printed = g4.printed = None
-    del bfs_groups, sim_groups, res_groups, reuse_groups, recs2
+    ctx.log("data-universe roots: %d bases, chosen %d" % (len(data_groups), len(data_sel)))
+    g1.printed = g2.printed = g3.printed = g4.printed = g5.printed = None
+    del bfs_groups, sim_groups, res_groups, reuse_groups, recs2, data_groups
     # ---- 3./4./5. replay on the real datasource, no-oracle checks, TLC validation --------------------------------
     gen = Batch(ctx, schema, binary, sdl_file, "gen")
-    gen.write_cases(cases_of(bfs_sel, ctx.seed, "b") + cases_of(sim_sel, ctx.seed, "s") + cases_of(res_sel, ctx.seed, "d") + rcases)
-    del bfs_sel, sim_sel, res_sel, rcases
+    gen.write_cases(cases_of(bfs_sel, ctx.seed, "b") + cases_of(sim_sel, ctx.seed, "s") + cases_of(res_sel, ctx.seed, "d") + cases_of(data_sel, ctx.seed, "v") + rcases)
+    del bfs_sel, sim_sel, res_sel, data_sel, rcases
     gen.run()
     pr = Batch(ctx, schema, binary, sdl_file, "probes")
     pr.write_cases(probe_cases(ctx.seed))
@@ -769,7 +780,7 @@ def run(ctx):
         "reformulation_steps": dict(steps_hist),
         "driver_stages": dict(stages),
         "samples": samples,
-        "invariants_on_traces": ["ShapeInv", "SelfInv", "ConsistentInv"],
+        "invariants_on_traces": ["ShapeInv", "SelfInv", "ConsistentInv", "ValueInv"],
         "exhaustive": False,
         "exhaustive_part": "Gen_C20_bfs%s.cfg: every operation within the bounds and its complete 1-step orbit%s" % (
             "" if quick else "_thorough", " (sampled in the quick tier)" if quick else ""),
